@@ -11,7 +11,8 @@ from ..gen import selectors as G
 ID = "C10"
 RULE = ("stylesheets of 2-5 rules over a per-case alphabet (types, classes, ids, attribute, pseudo-class, pseudo-element, "
         "placeholder; combinators; <= 3 compounds; 1-2 complex selectors per list) with 1-3 @extend directives (simple, "
-        "compound and complex extenders; one case in five is a transitive chain of 3-5 single-compound extenders with the target rules placed anywhere; "
+        "compound and complex extenders; one case in five is a transitive chain of 3-5 single-compound extenders with the target rules placed anywhere, "
+        "one in six a list holding the same target behind the same left-hand side with two different combinators; "
         "compound and complex extenders; chains, cycles, self extension, targets inside :not()/:is()), compiled in source "
         "order and in reversed order; plus the @media / !optional / missing-target families. Judged: soundness, "
         "completeness for single-compound extenders, first law, second law (specificity), no placeholder in output, "
@@ -77,6 +78,30 @@ def gen_chain(rng):
         s = rng.choice([t, t + " " + rng.choice(names), rng.choice(names) + " > " + t, t + ", " + rng.choice(names)])
         rules.insert(rng.below(len(rules) + 1) if rng.chance(0.5) else len(rules), {"sel": s, "extends": []})
     return al, rules[:6]
+
+
+def gen_combinators(rng):
+    """one target behind the same left-hand side with two different combinators in one selector list (the trimming of
+    generated selectors compares exactly such pairs), extended by a single-compound extender: completeness is judged"""
+    al = G.alphabet(rng, rng.range(3, 4))
+    names = [x for x in al if not x.startswith("::")]
+    rng.shuffle(names)
+    if len(names) < 3:
+        return gen_sheet(rng)
+    L, T, E = names[0], names[1], names[2]
+    combs = [" ", " > ", " + ", " ~ "]
+    c1, c2 = rng.choice(combs), rng.choice(combs)
+    parts = [L + c1 + T, L + c2 + T]
+    if rng.chance(0.3):
+        parts.append(rng.choice([T, L + rng.choice(combs) + E, E + rng.choice(combs) + T]))
+    if rng.chance(0.3):
+        rng.shuffle(parts)
+    rules = [{"sel": ", ".join(parts), "extends": []}, {"sel": E, "extends": [(T, False)]}]
+    if rng.chance(0.3):
+        rules.append({"sel": L + rng.choice(combs) + E, "extends": []})
+    if rng.chance(0.5):
+        rules.reverse()
+    return al, rules
 
 
 def sheet_text(rules, order=None):
@@ -199,6 +224,13 @@ def judge_sheet(sh, al, rules, res, text, nodes, reversed_res=None):
                 if plain_extenders and "(" not in r["sel"]:
                     miss = want & ~got
                     if miss:
+                        # would the element already be owed with the credit of one target alone? (if not, the match
+                        # needs two targets of the same compound replaced at once)
+                        single = 0
+                        for t in sorted({t for rr in rules for t, _ in rr["extends"]}):
+                            cr_t = {k: v for k, v in cr.items() if k != "__frozen__" and k[0] == t}
+                            single |= u.match_all(orig, cr_t)[e]
+                        facts = dict(facts, missing_only_where_two_targets_are_credited_at_once=(miss & single) == 0)
                         sh.violation("incomplete:" + h, "rule %d `%s` -> `%s` does not match element #%d of %s, which matches once extenders are credited (all extenders are single compounds)\n%s" % (
                             i, r["sel"], sel.to_text(new), e, u.witness(miss), text), rp, dict(facts, rule=i, rewritten=sel.to_text(new), dom=u.witness(miss)))
                         return
@@ -305,7 +337,7 @@ def run(sh):
         run_families(sh)
     n = 0
     while not sh.expired():
-        cases = [gen_chain(rng) if rng.chance(0.2) else gen_sheet(rng) for _ in range(8)]
+        cases = [gen_chain(rng) if rng.chance(0.2) else (gen_combinators(rng) if rng.chance(0.2) else gen_sheet(rng)) for _ in range(8)]
         specs = []
         for al, rules in cases:
             specs.append({"text": sheet_text(rules)})
